@@ -134,6 +134,7 @@ type Expr struct {
 	sp      space      // storage class of the root variable (l-values)
 	fx      bool       // evaluation may have side effects
 	cx      bool       // constant expression (candidate for folding)
+	kx      bool       // constant expression that could not be folded (too large, or evaluation traps)
 	name    string     // for diagnostics
 	rootBlk *blockInfo // block at the root of a buffer l-value
 }
